@@ -224,16 +224,34 @@ def build_ocaml(name, extract_v, mains):
     return exe
 
 
+# (name, Extract/<file>.v, [ocaml mains]) of every extracted model driver; bin/setup builds them all
+OCAML_DRIVERS = [
+    ("codec", "ExtractCodec.v", ["codec_main.ml"]),
+]
+
+
+def driver(name):
+    for n, ev, mains in OCAML_DRIVERS:
+        if n == name:
+            return build_ocaml(n, ev, mains)
+    raise KeyError(name)
+
+
 # --------------------------------------------------------------------------- batches
 
-def run_batch(cmd, requests, hang_s=5.0, env=None, mem_kb=4_000_000, label=""):
+def run_batch(cmd, requests, hang_s=5.0, env=None, mem_kb=4_000_000, label="", max_failures=6):
     """Send requests (strings without newline) to a line-protocol process; returns replies.
     A request on which the process dies gets 'died <tail of stderr>', one on which it makes no
     progress for hang_s seconds gets 'hang'; the process is restarted after the culprit."""
     n = len(requests)
     replies = [None] * n
     start = 0
+    failures = 0
     while start < n:
+        if failures >= max_failures:
+            for i in range(start, n):
+                replies[i] = "skipped (too many hangs/crashes in this batch)"
+            break
         pre = "ulimit -v %d; exec " % mem_kb
         p = subprocess.Popen(["bash", "-c", pre + " ".join(map(_q, cmd))], stdin=subprocess.PIPE,
                              stdout=subprocess.PIPE, stderr=subprocess.PIPE, env=env)
@@ -311,10 +329,12 @@ def run_batch(cmd, requests, hang_s=5.0, env=None, mem_kb=4_000_000, label=""):
                         break
                 replies[nxt] = "died " + msg[:200]
                 nxt += 1
+                failures += 1
                 break
             if time.time() - last > hang_s:
                 replies[nxt] = "hang"
                 nxt += 1
+                failures += 1
                 break
         try:
             p.kill()
